@@ -32,6 +32,7 @@ class Terms:
     def __init__(self, d=None, symmetric=True):
         self.d = {}
         self.symmetric = symmetric
+        self.nonlinear = ()  # notes: the value went through a non-linear operation (clip, abs, maximum, a clipping routine)
         for k, v in (d or {}).items():
             self._add(k, v)
 
@@ -50,6 +51,13 @@ class Terms:
     def copy(self):
         t = Terms(symmetric=self.symmetric)
         t.d = dict(self.d)
+        t.nonlinear = self.nonlinear
+        return t
+
+    def marked(self, note):
+        t = self.copy()
+        if note not in t.nonlinear:
+            t.nonlinear = t.nonlinear + (note,)
         return t
 
     def __add__(self, o):
@@ -60,6 +68,7 @@ class Terms:
         t = self.copy()
         for k, v in o.d.items():
             t._add(k, v)
+        t.nonlinear = t.nonlinear + tuple(n for n in o.nonlinear if n not in t.nonlinear)
         return t
 
     __radd__ = __add__
@@ -80,6 +89,7 @@ class Terms:
         t = Terms(symmetric=self.symmetric)
         for k, v in self.d.items():
             t._add(k, v * c)
+        t.nonlinear = self.nonlinear
         return t
 
     __rmul__ = __mul__
@@ -94,9 +104,13 @@ class Terms:
         for (p, q), v in self.d.items():
             t._add((vec_add(p, e), q), v)
             t._add((p, vec_add(q, e)), v)
+        t.nonlinear = self.nonlinear
         return t
 
-    def equals(self, o):
+    def equals(self, o, allow=()):
+        """equal as formal sums; a value that went through a non-linear operation equals nothing (unless every note is allowed)"""
+        if [n for n in self.nonlinear + getattr(o, "nonlinear", ()) if not any(a in n for a in allow)]:
+            return False
         ks = set(self.d) | set(o.d)
         return all(sp.simplify(self.d.get(k, 0) - o.d.get(k, 0)) == 0 for k in ks)
 
@@ -107,6 +121,8 @@ class Terms:
             dd = sp.simplify(self.d.get(k, 0) - o.d.get(k, 0))
             if dd != 0:
                 out.append(f"G{k}: found {self.d.get(k, 0)}, expected {o.d.get(k, 0)}")
+        for n in self.nonlinear:
+            out.insert(0, f"not a linear function of the density matrix any more: {n}")
         return "; ".join(out[:6])
 
     def __repr__(self):
@@ -434,8 +450,19 @@ class TermInterp:
         r = self.call_handler(self, e, d)
         if r is not NotImplemented:
             return r
+        if isinstance(e.func, ast.Attribute) and e.func.attr == "clip" and not (d or "").startswith(("np.", "numpy.")):
+            base = self.expr(e.func.value)
+            if isinstance(base, Terms):
+                return base.marked(f"`{ast.unparse(e)[:60]}` clips the values")
+            if isinstance(base, Table):
+                return base.map(lambda v: v.marked(f"`{ast.unparse(e)[:60]}` clips the values") if isinstance(v, Terms) else v)
         args = [self.expr(a) for a in e.args]
         kw = {k.arg: self.expr(k.value) for k in e.keywords}
+        if d in ("np.clip", "numpy.clip", "np.maximum", "numpy.maximum", "np.minimum", "numpy.minimum", "np.abs", "numpy.abs", "np.absolute",
+                 "np.fabs", "abs", "np.fmax", "np.fmin") and args and any(isinstance(a, (Terms, Table)) for a in args):
+            note = f"`{ast.unparse(e)[:60]}` is not linear"
+            out = next(a for a in args if isinstance(a, (Terms, Table)))
+            return out.marked(note) if isinstance(out, Terms) else out.map(lambda v: v.marked(note) if isinstance(v, Terms) else v)
         if d in ("np.identity", "numpy.identity", "np.eye") and args == [3] and kw.get("dtype", "int") == "int":
             return [tuple(x) for x in E3]
         if d in ("np.array", "numpy.array") and len(args) == 1:
